@@ -523,6 +523,9 @@ func (in *Interp) query(s *State, c *term.Term) bool {
 	}
 	if r == smt.Unknown {
 		in.St.FeasUnknown++
+		if in.cfg.Verbose {
+			fmt.Fprintln(os.Stderr, "UNKNOWN feasibility:", in.showTerm(c, 8), in.where(s))
+		}
 	}
 	v := r != smt.Unsat
 	in.feasCache[key] = v
